@@ -6,10 +6,10 @@ import (
 )
 
 const (
-	es6Go   = "pkg/internal/jsoncanonicalizer/es6numfmt.go"
-	jcsGo   = "pkg/internal/jsoncanonicalizer/jsoncanonicalizer.go"
-	hashGo  = "pkg/hashing/hash.go"
-	commGo  = "pkg/commitment/hash.go"
+	es6Go  = "pkg/internal/jsoncanonicalizer/es6numfmt.go"
+	jcsGo  = "pkg/internal/jsoncanonicalizer/jsoncanonicalizer.go"
+	hashGo = "pkg/hashing/hash.go"
+	commGo = "pkg/commitment/hash.go"
 )
 
 func init() { extraExtractors = append(extraExtractors, (*ctx).hashFacts) }
